@@ -1,12 +1,12 @@
 package main
 
 import (
-	"math/big"
 	"encoding/base64"
 	"encoding/json"
 	"flag"
 	"fmt"
 	"io/ioutil"
+	"math/big"
 	"os"
 	"os/exec"
 	"path/filepath"
@@ -293,7 +293,8 @@ func crash11Workload(args []string) int {
 				txs := g.genBlock(gen.R.Height() + 1)
 				if creates && gen.R.Height() == h {
 					ek := harness.EthAddr(harness.EthKey("eth-creator"))
-					initCode := []byte{0x60, 0x2a, 0x60, 0x00, 0x55, 0x60, 0x0a, 0x60, 0x11, 0x60, 0x00, 0x39, 0x60, 0x0a, 0x60, 0x00, 0xf3, 0x60, 0x2a, 0x60, 0x00, 0x52, 0x60, 0x20, 0x60, 0x00, 0xf3}
+					initCode := []byte{0x60, 0x2a, 0x60, 0xff, 0x55, // SSTORE(0xff, 0x2a): the slot key is 31 zero bytes and 0xff - not valid UTF-8
+						0x60, 0x0a, 0x60, 0x11, 0x60, 0x00, 0x39, 0x60, 0x0a, 0x60, 0x00, 0xf3, 0x60, 0x2a, 0x60, 0x00, 0x52, 0x60, 0x20, 0x60, 0x00, 0xf3}
 					txs = append(txs, gen.Transfer(harness.User(0), ek, "1000000000000"),
 						gen.Eth("eth-creator", 0, 300000, big.NewInt(1000), big.NewInt(0), nil, initCode))
 					if code, err := harness.RuleWasm("firstbyte"); err == nil {
